@@ -38,7 +38,8 @@ type c05Case struct {
 	StopAfter int      `json:"stop_after"`
 	ErrAfter  int      `json:"backend_error_after"`
 	Allowed   []string `json:"allowed,omitempty"`
-	Gen       int      `json:"generated_items,omitempty"` // Items = t00000 .. t<Gen-1> (kept out of the artefact)
+	Gen       int      `json:"generated_items,omitempty"`      // Items = t00000 .. t<Gen-1> (kept out of the artefact)
+	Dangling  bool     `json:"subject_never_pushed,omitempty"` // referrers of a subject that is not in the repository (allowed)
 }
 
 func (c c05Case) expand() c05Case {
@@ -110,7 +111,9 @@ func c05Mem(c c05Case) ociregistry.Interface {
 			}
 		}
 		must(m.PushBlob(ctx, "r", descOf(mtOctet, []byte("hello")), strings.NewReader("hello")))
-		must(m.PushManifest(ctx, "r", "", []byte("hello"), mtOpaque))
+		if !c.Dangling {
+			must(m.PushManifest(ctx, "r", "", []byte("hello"), mtOpaque))
+		}
 		for i, it := range c.Items {
 			must(m.PushManifest(ctx, "r", "", c05RefManifest(it), mtImage))
 			must(m.PushManifest(ctx, "r", fmt.Sprintf("tag%d", i), c05RefManifest(it), mtImage))
@@ -644,6 +647,9 @@ func c05Cases(thorough bool) []c05Case {
 			for n := 0; n <= 4; n++ {
 				for _, stack := range []string{"rec", "http1", "http2", "dbg-http1-dbg", "mem", "http1-mem"} {
 					add(c05Case{Kind: kind, Stack: stack, Items: plain[:n], ClientN: 2})
+					if strings.Contains(stack, "mem") {
+						add(c05Case{Kind: kind, Stack: stack, Items: plain[:n], ClientN: 2, Dangling: true})
+					}
 				}
 			}
 		}
